@@ -81,6 +81,22 @@ pub fn gen(rng: &mut Rng, size: usize) -> Value {
             }
         }
         for k in 0..n {
+            if rng.chance(1, 5) {
+                // a near miss of the marker: a proper prefix of it (possibly followed by other text), or one character changed
+                let marker: Vec<char> = (*rng.pick(&["//# sourceMappingURL=", "//@ sourceMappingURL="])).chars().collect();
+                let mut near: String = if rng.chance(1, 2) {
+                    marker[..2 + rng.below(marker.len() as u64 - 2) as usize].iter().collect()
+                } else {
+                    let mut v = marker.clone();
+                    let at = rng.below(v.len() as u64) as usize;
+                    v[at] = *rng.pick(&['x', ' ', '#', '@', '/', 'S', '=', '\t']);
+                    v.iter().collect()
+                };
+                near.push_str(*rng.pick(&["", "", "sourceURL=app.js", "ts-check", " x.map", "=other.map"]));
+                f.push_str(&near);
+                f.push_str(*rng.pick(&["\n", "\r\n", "\r"]));
+                continue;
+            }
             f.push_str(match rng.below(9) {
                 0 => "//# sourceMappingURL=",
                 1 => "//@ sourceMappingURL=",
